@@ -950,6 +950,11 @@ ScriptCrossDelTold == ScriptCrossDel \o << Sc("Store", "s2", <<<<1>>, "add", <<"
 ScriptReAddTold == ScriptTwoOnA \o <<
   Sc("ConnSetBoxes", None, <<"m1", <<>>>>), Sc("Deliver", "s2", <<"Expunge", TRUE>>),
   Sc("ConnSetBoxes", None, <<"m1", <<"A">>>>), Sc("Deliver", "s2", <<"Exists", TRUE>>) >>
+\* prefix (limits: LimitUid = 5, MaxMsgs = 2): m1 is in A and in B; copying it onto B again and again has used up B's UIDs
+\* (UIDNEXT 4): one more arrival fits, a replaced copy needs a fresh UID as well
+ScriptUidTight == <<
+  Sc("Select", "s1", <<"A">>), Sc("Append", "s1", <<"A", "m1", 1>>),
+  Sc("Copy", "s1", <<<<1>>, "B", <<1>>>>), Sc("Copy", "s1", <<<<1>>, "B", <<2>>>>), Sc("Copy", "s1", <<<<1>>, "B", <<3>>>>) >>
 \* prefix: both sessions know m1 and m2 in A; the connector has taken m1 out of A, s2 has been handed the removal and has
 \* not flushed it (beginIdle has to flush it - with EXPUNGE permitted - before responders are pushed past the queue)
 ScriptRemovedTold == ScriptTwoOnA \o <<
